@@ -51,4 +51,10 @@ META = {
         note="Panics are observed by recover(), aborts by the child's exit status with the input logged beforehand, memory by runtime.MemStats.TotalAlloc deltas and a per-call goroutine stack cap (debug.SetMaxStack); Go's own bounds checks are the underlying sanitizer.",
         technique="runtime monitoring under hostile inputs: recover/exit-status/allocation/stack-cap oracles in child processes (+ native fuzzing in the thorough tier)",
     ),
+    "C17": dict(
+        text="Exploration, exhaustive over the embedded keys: every definition in every embedded dictionary and its neighbours is looked up in all forms (about a million lookups per run) and compared with an independent resolver over the same XML; load-order behaviour is explored on generated sets in every permutation.",
+        design_ref="DESIGN.md section 4, C17",
+        note="Trusts refdict (own XML structs, own resolver with the parent-application map copied from the library's documentation) and the go/parser extraction of the embedded XML strings and constant names; constant values come from the compiled packages.",
+        technique="runtime differential monitor: dictionary lookups vs reference resolver; monotonicity assertions across loads",
+    ),
 }
